@@ -20,6 +20,10 @@ PROFILES = [
     ('kern_core', {'measures': (101, 112), 'rows': (1, 1), 'max_spines': 2, 'p_split': 0.01, 'p_gcomment': 0.0, 'p_fcomment': 0.01,
                    'p_tandem': 0.01, 'bar_numbers': 1.0, 'empty_measures': 0.2, 'p_null_run': 0.0, 'p_blank': 0.0}),
     ('kern_core', {'min_spines': 6, 'max_spines': 11, 'measures': (2, 4), 'rows': (1, 2), 'p_split': 0.03, 'max_width': 14}),
+    # nested splits (three and more sub-spines of one spine) re-joined before the barline, in scores of several spines
+    ('kern_core', {'min_spines': 2, 'max_spines': 3, 'p_split': 0.45, 'p_consecutive_ops': 0.7, 'measures': (3, 5), 'rows': (2, 4)}),
+    # invisible barlines (=1-, =-): they delimit measures like drawn ones, and the export replaces them by nulls
+    ('kern_core', {'p_hidden_bar': 0.4, 'measures': (2, 7)}),
 ]
 BOUNDARY_FROM = 8   # index of the first boundary profile in PROFILES
 
